@@ -432,6 +432,8 @@ def job_partition_real_quantizers(period, Wb, npol):
                     be.filterbank[0][p].window = w
                     be.filterbank[0][p].channelized_stds = npx.sarr([Sym(RV(1)), Sym(RV(1))])
                 be.record('/mem/o', num_blocks=2, length_mode='num_blocks', header_dict={}, digitize=True, verbose=False, load_template=False)
+                ant.k = 0          # the same stream again: a second recording on the same backend object
+                be.record('/mem/p', num_blocks=2, length_mode='num_blocks', header_dict={}, digitize=True, verbose=False, load_template=False)
             leaf = core.run_single(run, [])
         data = []
         for nm in fs.names():
@@ -441,7 +443,7 @@ def job_partition_real_quantizers(period, Wb, npol):
     for nsb, (data, side) in outs.items():
         name = f"C02:partition-real-quantisers:{(period, Wb, npol)}:nsb{nsb}"
         dis = []
-        ok = len(data) == len(ref) == 2 and all(len(a) == len(b) for a, b in zip(data, ref))
+        ok = len(data) == len(ref) == 4 and all(len(a) == len(b) for a, b in zip(data, ref))
         if ok:
             for a, b in zip(data, ref):
                 for x, y in zip(a, b):
@@ -453,6 +455,13 @@ def job_partition_real_quantizers(period, Wb, npol):
         if r == 'sat':
             recs.append(cex('C02:partition:real-quantisers', f'with quantiser statistics held from the first call (period {period}), num_subblocks={nsb} records other bytes than num_subblocks=1',
                             dict(fn='partition_real', period=period, Wb=Wb, npol=npol, nsb=nsb), name=name))
+    # the second recording of the same stream repeats the first (nothing of the first one is carried over)
+    dis = [z3.simplify(lift(x) - lift(y)) != 0 for a, b in zip(ref[:2], ref[2:]) for x, y in zip(a, b)]
+    dis = [c for c in dis if not z3.is_false(z3.simplify(c))]
+    r, _ = core.check([z3.Or(*dis)] if dis else [z3.BoolVal(False)], timeout_ms=60000)
+    recs.append(q(f"C02:partition-real-quantisers:{(period, Wb, npol)}:second-recording", r))
+    if r == 'sat':
+        recs.append(cex('C02:partition:real-quantisers:second', f'period {period}: a second recording of the same stream on the same backend differs from the first', dict(fn='partition_real', period=period, Wb=Wb, npol=npol, nsb=1), name=f"C02:partition-real-quantisers:{(period, Wb, npol)}:second-recording"))
     r, _ = core.check([lift(ref[0][0]) != lift(ref[1][0])])
     recs.append(q(f"C02:partition-real-quantisers:{(period, Wb, npol)}:twin", r, expect='sat'))
     return recs
@@ -476,6 +485,7 @@ def replay_partition_real(p):
             be = bk.RawVoltageBackend(src, qz.RealQuantizer(num_bits=8, stats_calc_period=period, stats_calc_num_samples=2), pf.PolyphaseFilterbank(num_taps=2, num_branches=8),
                                       qz.ComplexQuantizer(num_bits=8, stats_calc_period=period, stats_calc_num_samples=2), start_chan=0, num_chans=4,
                                       block_size=2 * Wb * 4 * 2 * npol, blocks_per_file=2, num_subblocks=nsb)
+            be.record(os.path.join(d, f'first{nsb}'), num_blocks=2, length_mode='num_blocks', header_dict={}, verbose=False, load_template=False)
             be.record(os.path.join(d, f'o{nsb}'), num_blocks=2, length_mode='num_blocks', header_dict={}, verbose=False, load_template=False)
             raw = open(os.path.join(d, f'o{nsb}.0000.raw'), 'rb').read()
             blocks, pos = [], 0
@@ -487,7 +497,7 @@ def replay_partition_real(p):
         bad = [n for n, v in outs.items() if v != outs[1]]
     finally:
         shutil.rmtree(d, ignore_errors=True)
-    return bool(bad), f"period {period}: num_subblocks {bad} record other bytes than num_subblocks=1" if bad else 'all partitions record the same bytes'
+    return bool(bad), f"period {period}: num_subblocks {bad} record other bytes than num_subblocks=1 (second recording on the backend)" if bad else 'all partitions record the same bytes'
 
 
 # ------------------------------------------------------------------ symbolic sizes: sub-block tiling
